@@ -443,5 +443,7 @@ def main(tier):
     check_upward_exposed(rep, mod)
     check_upward_exposed_deflate(rep, mod)
     check_scratch_clear(rep, mod)
+    import c17
+    c17.check_hash_clear(rep, mod)
     provenance.check_undef(rep, None, 'ALL', 130)
     return rep.finish()
